@@ -966,8 +966,10 @@ def correspondence(ctx, binary, thorough, texts):
 
 
 # ------------------------------------------------------------------------------------------------ the check
-def judge_pumps(pc, res, budget):
-    """-> list of (what, witness, sig_text); timeouts and super-polynomial growth of a family"""
+def judge_pumps(pc, res, budget, pool=None):
+    """-> list of (what, witness, sig_text); timeouts and super-polynomial growth of a family.
+    A suspected growth is re-measured (both sizes three more times, minimum taken): the first case a worker runs
+    pays for imports and lazily compiled validation regexes, and the machine is shared."""
     out = []
     fam = {}
     for (name, n, case), r in zip(pc, res):
@@ -984,6 +986,15 @@ def judge_pumps(pc, res, budget):
         if len(rows) >= 2:
             (n1, _, r1), (n2, c2, r2) = rows[-2], rows[-1]
             if r2["cpu"] > 0.25 and r1["cpu"] > 0 and n2 == 2 * n1 and r2["cpu"] / r1["cpu"] > 16:
+                if pool is not None:
+                    c1 = rows[-2][1]
+                    again = pool.map([c1, c2] * 3)
+                    if all(x["s"] == "ok" for x in again):
+                        m1 = min([r1["cpu"]] + [x["cpu"] for x in again[0::2]])
+                        m2 = min([r2["cpu"]] + [x["cpu"] for x in again[1::2]])
+                        if not (m2 > 0.25 and m1 > 0 and m2 / m1 > 16):
+                            continue
+                        r1, r2 = dict(r1, cpu=m1), dict(r2, cpu=m2)
                 w = witness_of(c2, r2)
                 w["pump"] = [name, n2]
                 w["growth"] = {"n": [n1, n2], "cpu": [r1["cpu"], r2["cpu"]]}
@@ -1056,7 +1067,7 @@ def run(ctx):
     # ---- time: pumped families in isolated workers
     pc = pump_cases(thorough) + prop_pump_cases(ctx.rng, thorough)
     pres = pool.map([c for _, _, c in pc])
-    for what, w, sig in judge_pumps(pc, pres, budget):
+    for what, w, sig in judge_pumps(pc, pres, budget, pool):
         ctx.violation(what, w, sig_text=sig)
     worst = sorted(((r["cpu"], name, n) for (name, n, _), r in zip(pc, pres) if r["s"] == "ok"), reverse=True)[:5]
 
